@@ -43,7 +43,7 @@ ASSUMPTIONS = ['wavelengths and fluxes are finite float64 (float32 / integer arr
 LO, HI = 100.0, 3.0e5          # quantifier: 100 A .. 30 um
 GUARD = 2000.0
 UNITS = {'AA': 1.0, 'nm': 10.0, 'um': 1.0e4}
-KINDS = ('float', 'npfloat', 'arr0d', 'arr1d', 'arr2d', 'qscalar', 'qarr')
+KINDS = ('float', 'npfloat', 'arr0d', 'arr1d', 'arr2d', 'qscalar', 'qarr', 'iarr', 'pyint')
 DOC_OFFSETS = [-0.042, 0.036, 0.015, 0.013, -0.002]   # sdss-calib/845, quoted in the docstring
 BANDS = 'ugriz'
 
@@ -92,6 +92,10 @@ def _mk_input(case):
         return np.array(xs[0])
     if k == 'arr1d':
         return xs.copy()
+    if k == 'iarr':      # integer-valued wavelengths in an integer array (np.arange(3000, 9000, 100))
+        return np.array([int(v) for v in xs], dtype=case.get('idtype', 'int64'))
+    if k == 'pyint':
+        return int(xs[0])
     if k == 'arr2d':
         return xs.copy().reshape(case['shape'])
     un = _astropy_unit(case['unit'])
@@ -126,7 +130,7 @@ def _call(fn, obj):
 
 
 def _model_line(case):
-    if case['kind'] == 'float':
+    if case['kind'] in ('float', 'pyint'):
         return {'p': 'C19', 'op': case['fn'], 'x': case['xs'][0]}
     unit = None
     if case['kind'] in ('qscalar', 'qarr'):
@@ -180,6 +184,15 @@ def _wave_cases(ctx):
         for _ in range(ctx.n(10, 100)):
             a, b = rng.randrange(1, 6), rng.randrange(1, 6)
             add(fn, 'arr2d', _wave_values(rng, a * b), shape=[a, b])
+        # integer wavelengths: Python ints and integer arrays (a wavelength grid made with np.arange)
+        for _ in range(ctx.n(12, 200)):
+            n = rng.choice([1, 2, 5, 20, 60])
+            start, step = rng.choice([100, 1500, 1990, 2000, 3000, 3500]), rng.choice([1, 7, 100, 1000])
+            vals = [float(start + step * i) for i in range(n)] if rng.random() < 0.6 else \
+                [float(round(p)) for p in _wave_values(rng, n)]
+            add(fn, 'iarr', vals, tag='integers')
+            cases[-1]['idtype'] = rng.choice(['int64', 'int64', 'int32'])
+            add(fn, 'pyint', [vals[rng.randrange(len(vals))]], tag='integers')
         # all below / all above, every container
         for _ in range(ctx.n(10, 100)):
             n = rng.randrange(1, 9)
@@ -209,7 +222,7 @@ def _wave_oracle(ctx, case, impl):
     if 'err' in impl:
         return [('wave:raises-%s:%s' % (impl['err'], kind), '%s raised %s for a valid %s input' % (fn, impl['err'], kind), None)]
     out = [core.b2f(b) for b in impl['v']]
-    if len(out) != len(xs) or impl['shape'] != (case.get('shape') or ([] if kind in ('float', 'npfloat', 'arr0d', 'qscalar') else [len(xs)])):
+    if len(out) != len(xs) or impl['shape'] != (case.get('shape') or ([] if kind in ('float', 'npfloat', 'arr0d', 'qscalar', 'pyint') else [len(xs)])):
         return [('wave:shape:%s' % kind, 'answer has shape %s for input of %d element(s)' % (impl['shape'], len(xs)), None)]
     isq = kind in ('qscalar', 'qarr')
     if isq:
@@ -225,7 +238,9 @@ def _wave_oracle(ctx, case, impl):
     ref = _call(fn, np.array(px))
     # round trip through the real functions, same container
     other = 'v2a' if fn == 'a2v' else 'a2v'
-    back = _call(other, _mk_input(dict(case, xs=impl['v']))) if not bad else {'err': 'skipped'}
+    # (the answer of an integer input is a float: feed it back in the corresponding float container)
+    bkind = {'iarr': 'arr1d', 'pyint': 'float'}.get(kind, kind)
+    back = _call(other, _mk_input(dict(case, kind=bkind, xs=impl['v']))) if not bad else {'err': 'skipped'}
     for i, (x, p, o) in enumerate(zip(xs, px, out)):
         if math.isnan(o) or math.isinf(o):
             bad.append(('wave:not-finite', '%s(%r) = %r' % (fn, x, o), i))
@@ -248,7 +263,7 @@ def _wave_oracle(ctx, case, impl):
                     bad.append(('wave:unit-dependence', '%s(%r %s) = %r %s but %s(%r A) = %r A' % (
                         fn, x, case['unit'], o, case['unit'], fn, p, r), i))
             else:
-                lim = 2 if kind in ('float', 'npfloat') else 0   # scalar ** 2 goes through libm pow
+                lim = 2 if kind in ('float', 'npfloat', 'pyint') else 0   # scalar ** 2 goes through libm pow
                 if _ulps(o, r) > lim:
                     bad.append(('wave:container-dependence', '%s(%r) as %s = %r, as array element = %r' % (fn, x, kind, o, r), i))
         if 'v' in back:
@@ -282,7 +297,7 @@ def _wave_run(ctx, cases, use_model=True):
                 ctx.disagree('wave', c, impl, m)
             else:
                 mv = m if isinstance(m, list) else [m]
-                lim = 2 if c['kind'] in ('float', 'npfloat') else 0
+                lim = 2 if c['kind'] in ('float', 'npfloat', 'pyint') else 0
                 iv = impl.get('v')
                 if iv is None or len(iv) != len(mv) or any(_ulps(core.b2f(a), core.b2f(b)) > lim for a, b in zip(iv, mv)):
                     j = 0
